@@ -23,3 +23,13 @@ Theorem callbacks_only_in_wrapper_headers :
   forall f c, In (f, c) callback_uses -> f = "mir-alloc.h" \/ f = "mir-code-alloc.h".
 Proof. exact callback_uses_wrappers. Qed.
 Print Assumptions callbacks_only_in_wrapper_headers.
+
+(* Non-vacuity of the three facts above on the current tree: the regenerated lists contain the seven default
+   callbacks' libc calls, at least one VARR resize function calling MIR_realloc, and the callback uses of both
+   wrapper headers -- a translator that silently saw nothing would fail here. *)
+Theorem site_lists_not_vacuous :
+  (forall x, In x allowed_direct -> In x direct_sites) /\ realloc_callers <> nil /\
+  (forall c, In c ("malloc" :: "calloc" :: "realloc" :: "free" :: nil) -> In ("mir-alloc.h", c) callback_uses) /\
+  (forall c, In c ("mem_map" :: "mem_unmap" :: "mem_protect" :: nil) -> In ("mir-code-alloc.h", c) callback_uses).
+Proof. exact sites_seen. Qed.
+Print Assumptions site_lists_not_vacuous.
